@@ -235,6 +235,31 @@ check('C13', 'E1', 'exploration',
       'Trusted: the ownership model (nearest heading at or above with level <= split level) and unique marker words.',
       'DESIGN.md 2/C13')
 
-_PENDING = {'C10': 'check not built yet in this round (planned: bounded exhaustive exploration, see DESIGN.md section 2)', 'C11': 'check not built yet in this round (planned: bounded exhaustive exploration, see DESIGN.md section 2)', 'C19': 'check not built yet in this round (planned: bounded exhaustive exploration, see DESIGN.md section 2)'}
+check('C11', 'E1', 'exploration',
+      'bounded exhaustive enumeration of verbatim bodies x delimiters and of formula trees x math contexts; identity / token-stream oracle',
+      '(a) Every verbatim body of length <= 4 (quick; 5 thorough) over the 16+4 symbol alphabet of the design (specials, blanks, '
+      'newline, ligature triggers, partial end markers, ^^M), plus length 5 (6) over a reduced alphabet, for verbatim, verbatim*, '
+      '\\verb|..| and \\verb*|..|, and every other printable non-letter delimiter with short bodies: textContent must equal the '
+      'body exactly, the text after the construct must be processed normally (ligatures, comments, context depth), \\verb source '
+      'must reproduce the input. (b) Every formula tree of depth <= 3 (quick; 4 thorough) over 9 leaves, 9 unary and 6 binary '
+      'operators in $ $, \\( \\), \\[ \\], equation, $$ $$ and inside \\textbf{..}: node.source and mathjax_source, re-tokenized with '
+      'the reference lexer and blanks dropped, must equal the printed formula with user macros expanded.',
+      'Trusted: vp/refs/tex_lexer.py for re-tokenizing; the printer of the formula grammar. Two open findings (character '
+      'substitutions inside math groups/cells; trailing array rule lost from the source).',
+      'DESIGN.md 2/C11')
+
+check('C19', 'E1', 'exploration',
+      'bounded exhaustive enumeration of boolean expression trees and loops; AST fold as oracle',
+      'Every atom alone and under \\not (1705 atoms: integer comparisons over 12 operands, \\lengthtest over 20 operands in mixed '
+      'units, \\equal, \\isodd, \\isundefined, \\boolean); every expression tree of depth <= 3 (quick; <= 4 thorough) over '
+      '\\and/\\or/\\not/\\( \\) with every \\not placement and redundant parentheses, upper/lower-case operator spellings and blank '
+      'styles, nested \\ifthenelse in both branches, and \\whiledo with bounds 0..6 over compound tests; observed: the branch '
+      'marker text and a \\def side effect per branch; expected: fold of the tree with \\not tightest and \\and/\\or of equal '
+      'precedence, left to right.',
+      'Trusted: vp/refs/c19_model.py (enumerator, printer, fold, TeX scaled-point arithmetic for lengths); length pairs on which '
+      'integer and exact arithmetic disagree are outside the alphabet.',
+      'DESIGN.md 2/C19')
+
+_PENDING = {'C10': 'check not built yet in this round (planned: bounded exhaustive exploration, see DESIGN.md section 2)', 'C19': 'check not built yet in this round (planned: bounded exhaustive exploration, see DESIGN.md section 2)'}
 for _p, _why in _PENDING.items():
     NOT_APPLICABLE.append({'property_id': _p, 'reason': _why})
